@@ -111,3 +111,8 @@ impl CorrelateAccessCodeTag {
         (a, tags)
     }
 }
+
+#[cfg(rustradio_verif)]
+pub mod verif_access {
+    include!(concat!(env!("RUSTRADIO_VERIF_DIR"), "/access/correlate_access_code.rs"));
+}
